@@ -226,3 +226,37 @@ def check_park(ctx):
         else:
             ctx.traces_validated += 1
     return dict(park=f'{len(rows)} parked runs', race_reproduced=stats.get('race_reproduced', 0), race_cases=stats.get('race_cases', [])[:3])
+
+
+# ---------------------------------------------------------------- the regenerated source shapes
+
+def _shapes(path):
+    try:
+        return dict(re.findall(r'\("(\w+)",\s*\n?\s*"(.*)"\)', open(path).read()))
+    except OSError:
+        return {}
+
+
+def shape_search(ctx, out):
+    """`search` hook for a failed `lake build`: theorem chan_shapes (RoProofs/ChanShape.lean) compares
+    the subscribe closures of ToChannel / detachOn / FromChannel, as regenerated from the tree under
+    check, with the statements the transition systems were written from. The runs of `check` have
+    already been made against that tree: a concrete failing input found by them is the report;
+    otherwise the changed function and the first differing statement are named (no-failing-input-found)."""
+    gen = _shapes(os.path.join(R.LEAN, 'RoGen', 'ChanShape.lean'))
+    exp = _shapes(os.path.join(R.LEAN, 'RoProofs', 'ChanShape.lean'))
+    changed = [n for n in exp if gen.get(n) != exp[n]]
+    if not changed:
+        return False
+    lines = []
+    for n in changed:
+        a, b = exp[n], gen.get(n, 'missing')
+        i = next((k for k in range(min(len(a), len(b))) if a[k] != b[k]), min(len(a), len(b)))
+        lines.append(f'{n}: first difference at character {i}\n  expected …{a[max(0, i - 60):i + 80]}…\n  source   …{b[max(0, i - 60):i + 80]}…')
+    text = ('theorem Ro.Chan.chan_shapes_ok (RoProofs/ChanShape.lean; used by Ro.C17.chan_shapes, Ro.C08.handoff_shapes) no longer checks:\n'
+            'the source of ' + ', '.join(changed) + ' is not written the way the model of RoModel/Chan.lean reads it.\n' + '\n'.join(lines) + '\n')
+    ctx.notes.append(text)
+    if any(not v[2] for v in ctx.violations):
+        return True        # the correspondence runs above already gave a concrete failing input
+    ctx.violation('the source of ' + ', '.join(changed) + ' changed shape (send / close / teardown order) and no run shows a difference', text, no_input=True)
+    return True
